@@ -265,6 +265,7 @@ def write_evidence(prop, tier, seed, coverage, assumptions, wall, violations, le
     return ev
 
 
+EXTRA_PARTS = {"C12": [("clirun", "c12_part")]}
 PLANNER_DEP_PROPS = {"C02", "C03", "C04", "C05", "C09", "C12", "C13"}
 
 
@@ -302,6 +303,21 @@ class Check:
                 m1run.planner_dependency(self)
             except Exception as e:  # the dependency must never hide the layer's own verdict
                 self.notes.append("NOTE planner dependency not evaluated: %s" % e)
+        # parts of a property that live in another layer's runner (e.g. C12's "revision then reload" clause on the real binary)
+        for mod, fn in EXTRA_PARTS.get(self.prop, []):
+            if (mod, fn) in getattr(self, "_extra_done", set()):
+                continue
+            self._extra_done = getattr(self, "_extra_done", set()) | {(mod, fn)}
+            try:
+                import importlib
+                r = getattr(importlib.import_module(mod), fn)(self.tier, self.seed)
+                self.cov.setdefault("parts", {})["%s.%s" % (mod, fn)] = {"ok": r.get("ok"), "details": r.get("details")}
+                if not r.get("ok", False):
+                    fi = r.get("failing_input")
+                    self.violation(write_replay(self.prop, "oracle:%s" % fn if fi else "correspondence:%s" % fn,
+                                                {"input": fi, "details": r.get("details")}), not fi)
+            except Exception as e:
+                self.notes.append("NOTE part %s.%s not evaluated: %s" % (mod, fn, e))
         wall = time.time() - self.t0
         for l in self.notes:
             print(l)
